@@ -1077,6 +1077,10 @@ class Array(Taggable):
         """
         Returns a copy of *self* with *iaxis*-th axis tagged with *tags*.
         """
+        if not -self.ndim <= iaxis < self.ndim:
+            raise IndexError(f"axis {iaxis} is out of bounds for an array of "
+                             f"dimension {self.ndim}")
+        iaxis = iaxis % self.ndim
         new_axis = self.axes[iaxis].tagged(tags)
         if new_axis is not self.axes[iaxis]:
             return self.copy(
